@@ -14,6 +14,25 @@ def run(ctx):
     if r.inv_violated != "HistoryFree":
         raise vf.EngineError("expected TLC to refute HistoryFree for a generator state carried across calls:\n" + r.out[-1500:])
     ctx.notes.append("TLC refutes HistoryFree for RESET=FALSE (Miser's iran carried over between calls, the pinned code) and proves it for RESET=TRUE")
+    # Vegas: taint analysis of the function-local statics (A level), and a light conformance of its object list with the source
+    ctx.mc("VegasStatics", "VegasStatics.cfg", workers=4)
+    import re
+    src = open(os.path.join(vf.REPO, "src", "Integration.cpp")).read()
+    m = re.search(r"double Integrate_MC_Vegas\(.*?\n\{(.*?)// Initialize", src, re.S)
+    names = set()
+    if m:
+        for decl in re.findall(r"static\s+(?:const\s+)?[\w:<>\s]+?\s([^;]+);", m.group(1)):
+            if "const" in decl:
+                continue
+            for nm in re.findall(r"\b([A-Za-z_]\w*)\b\s*(?:\(|,|$)", decl):
+                names.add(nm)
+    names -= {"MXDIM", "NDMX", "ALPH", "TINY"}
+    modelled = {"i", "it", "j", "k", "mds", "nd", "ndo", "ng", "npg", "calls", "dv2g", "dxg", "f", "f2", "f2b", "fb", "rc", "ti", "tsi", "wgt", "xjac", "xn", "xnd", "xo", "schi", "si", "swgt",
+                "ia", "kg", "dt", "dx", "r", "x", "xin", "d", "di", "xi"}
+    if names and names != modelled:
+        ctx.drift("the function-local statics of Integrate_MC_Vegas (%s) differ from the objects of spec/VegasStatics.tla (%s)" % (sorted(names - modelled), sorted(modelled - names)))
+    elif not names:
+        ctx.drift("could not locate the static declarations of Integrate_MC_Vegas in the source")
     exe = ctx.harness("c14")
     trace = os.path.join(ctx.work, "trace.ndjson")
     rc, out, err = vf.run_exe([exe, "record", str(ctx.seed), ctx.tier, trace], timeout=3300)
